@@ -317,8 +317,15 @@ def case_table(b, local=0):
     """{canonical guard: rendered value} of a local (default: the return place), idiom-independent on an inlined body"""
     tab = {}
     for g, t, bi in b.expanded_cases(local):
-        tab.setdefault(canon_guard(g), set()).add(render(t))
-    return {k: sorted(v) for k, v in tab.items()}
+        g = untry_guard(b, g)
+        if not g:
+            continue            # a case that cannot happen (its guard tests a literal variant for another one)
+        tab.setdefault(canon_guard(g), set()).add(render(drop_never(untry(b, t))))
+    # cases that yield the same value are one case (their guards are alternatives)
+    by_val = {}
+    for k, v in tab.items():
+        by_val.setdefault(tuple(sorted(v)), []).append(k)
+    return {" || ".join(sorted(ks)): list(v) for v, ks in by_val.items()}
 
 
 def effective_owners(facts, d, _seen=None):
@@ -461,16 +468,27 @@ def elementwise_views(ctx, defn):
                     return mir.mk_proj(X, q[2][2:])
                 return None
             return render(mir.subst(term, f))
-        calls, yields = [], []
+        def rx_guard(g):
+            """canonical guard with the element written $x"""
+            def f(q):
+                if q == elem:
+                    return X
+                if q[0] == "proj" and q[1] == nt and q[2][:2] == ("as:Some", "0"):
+                    return mir.mk_proj(X, q[2][2:])
+                return None
+            return canon_guard(frozenset(frozenset((a[0], mir.subst(a[1], f)) + tuple(a[2:]) for a in conj) for conj in g))
+        calls, yields, pushes = [], [], []
         for b2, t2, tm2 in b.real_calls():
             if tm2 == nt or not in_loop(b.guard(b2)):
                 continue
             if mir._strip_generics(tm2[1]).endswith("Vec::push") and len(tm2[2]) == 2:
                 yields.append(rx(tm2[2][1]))
+                pushes.append((tm2[2][0], rx(tm2[2][1]), rx_guard(strip(b.guard(b2)))))
                 continue
-            calls.append((rx(tm2), canon_guard(strip(b.guard(b2)))))
+            calls.append((rx(tm2), rx_guard(strip(b.guard(b2)))))
         if calls or yields:
-            views.append({"kind": "loop", "source": render(strip_iter(nt[2][0])), "calls": calls, "yields": yields, "site": t["sp"]})
+            views.append({"kind": "loop", "source": render(strip_iter(nt[2][0])), "calls": calls, "yields": yields, "pushes": pushes,
+                          "site": t["sp"]})
     return views
 
 
@@ -489,6 +507,59 @@ def unary_result(ctx, callable_term):
     return None
 
 
+def drop_never(t):
+    """remove impossible alternatives (`<never>`: payload of a variant the value is known not to be) from phi nodes"""
+    def f(q):
+        if q[0] == "phi":
+            alts = tuple(sorted(set(x for x in (drop_never(a) for a in q[1]) if x != ("never",)), key=repr))
+            if not alts:
+                return ("never",)
+            if len(alts) == 1:
+                return alts[0]
+            return ("phi", alts) + tuple(q[2:])
+        if q[0] == "proj":
+            base = drop_never(q[1])
+            if base != q[1]:
+                return mir.mk_proj(base, q[2])
+        return None
+    return mir.subst(t, f)
+
+
+def _try_kind(b, call):
+    try:
+        selfty = b.blocks[call[3]]["term"]["f"]["args"][0]
+    except Exception:
+        return None
+    return "Result" if selfty.startswith("std::result::Result<") else ("Option" if selfty.startswith("std::option::Option<") else None)
+
+
+def untry_guard(b, g):
+    """guard with `?` read through: `Try::branch(X) is Continue|Break` becomes `X is Some|None` / `Ok|Err`; atoms decided by a
+    literal variant are evaluated (a conjunction containing a false one is dropped)"""
+    out = set()
+    for conj in g:
+        c2, dead = set(), False
+        for a in conj:
+            if a[0] == "is" and a[1][0] == "call" and a[1][1].endswith("Try::branch") and len(a[1]) > 3:
+                k = _try_kind(b, a[1])
+                if k:
+                    names = set()
+                    for n in a[2]:
+                        names.add({"Continue": "Some" if k == "Option" else "Ok", "Break": "None" if k == "Option" else "Err"}.get(n, n))
+                    a = ("is", untry(b, a[1][2][0]), frozenset(names), "std::%s::%s" % (k.lower(), k), a[4])
+            else:
+                a = (a[0], untry(b, a[1])) + tuple(a[2:])
+            if a[0] == "is" and a[1][0] == "agg" and a[1][1].startswith("adt:"):
+                if a[1][1].rsplit("::", 1)[-1] in a[2]:
+                    continue
+                dead = True
+                break
+            c2.add(a)
+        if not dead:
+            out.add(frozenset(c2))
+    return mir.simplify_dnf(out) if out else frozenset()
+
+
 def untry(b, term):
     """`expr?` read as a value: Try::branch(X).as:Continue.0 becomes the Ok / Some payload of X (so `x.map(f)?` and
     `f(x?)` denote the same term); X's Result / Option type is read from the call site's own type arguments"""
@@ -503,6 +574,12 @@ def untry(b, term):
             if v is None:
                 return None
             return mir.mk_proj(untry(b, q[1][2][0]), (v, "0") + tuple(q[2][2:]))
+        # the early-return value of `opt?`: None
+        if q[0] == "call" and q[1].endswith("FromResidual::from_residual") and len(q[2]) == 1:
+            r = q[2][0]
+            if r[0] == "proj" and r[1][0] == "call" and r[1][1].endswith("Try::branch") and r[2][:2] == ("as:Break", "0") and \
+                    _try_kind(b, r[1]) == "Option":
+                return ("agg", "adt:std::option::Option::None", (), ())
         return None
     return mir.subst(term, f)
 
